@@ -24,3 +24,6 @@ def check(ctx: Ctx) -> None:
     S.r_atomic_slot_registry(ctx, "R10.5")
     # live groups never share an id only if ids are unique: shared obligation with C11
     N.r_id_discipline(ctx, "R10.6")
+    # a cancelled group is gone only if its spawners were found and cancelled: a spawner dropped from the table while it is still
+    # running keeps creating tasks under the cancelled name and re-creates the group (shared with C04/C07/C08)
+    S.r_spawner_registry_who(ctx, "R10.8")
